@@ -155,6 +155,19 @@ def run(ctx):
             ctx.known_finding("F9", "pretty printing re-emits each \"...\" span without its quotes, so stripping the escapes does not give back the plain message (%d of %d messages; e.g. %r)" % (len(full), len(msgs), ex[:80]))
         else:
             ctx.violation("pretty-quotes", "C13 fails on the real PrettyPrintErrorMessage: stripping the escape sequences and the `error: ` prefix does not give back the plain message: every matched pair of double quotes is gone (%d of %d messages), e.g.\n%r\n" % (len(full), len(msgs), ex))
+    # M15 tie: the model of PrettyPrintErrorMessage, evaluated inside Coq, against the real function on the same messages
+    tie_msgs = [m for m in msgs if "\x1b" not in m]
+    ncmp, badp = ds.pretty_model_tie(tie_msgs, ctx.scratch())
+    ctx.obligation("model M15 (coq/model/Pretty.v, evaluated inside Coq) == PrettyPrintErrorMessage, byte for byte, on %d messages" % (ncmp or 0), ncmp is not None and not badp)
+    if ncmp is None:
+        ctx.violation("pretty-model", "C13: the correspondence of the pretty-printing model could not be run: %s\n" % badp, found_input=False)
+    elif badp:
+        m, r = badp[0]
+        o = ds.pretty_oracle([m])
+        if o[0]:
+            ctx.violation("pretty-model", "C13 fails on the real PrettyPrintErrorMessage: stripping the escape sequences and the `error: ` prefix does not give back the plain message\nmessage: %r\nreal:    %r\n" % (m, r))
+        else:
+            ctx.violation("pretty-model", "C13: the model of PrettyPrintErrorMessage (theorem C13_pretty_strip) no longer corresponds to the code, %d of %d messages differ; no message on which stripping fails was found\nmessage: %r\nreal:    %r\n" % (len(badp), ncmp, m, r), found_input=False)
     ctx.coverage.update({"evaluations": len(res["cases"]) * 3 + len(msgs), "distinct_nontrivial": len(nontriv),
                          "rule": "synthetic conflict sets as for C11, each run with grouping on and off; non-trivial = grouping actually merges conflicts; plus real and synthetic messages through PrettyPrintErrorMessage",
                          "messages_with_quotes": len(full or [])})
